@@ -351,6 +351,15 @@ def propagate(fn, max_size=400):
     dominates the use (same block, earlier statement) and no operand of the definition is reassigned anywhere in fn."""
     counts = _assigned_names(fn)
     params = {a.arg for a in fn.args.posonlyargs + fn.args.args + fn.args.kwonlyargs}
+    # names bound only as loop targets are constant within one iteration: a definition inside the loop body that uses them
+    # is only ever propagated to later statements of that same body (block scoping below)
+    loop_only = {}
+    for n in ast.walk(fn):
+        if isinstance(n, ast.For):
+            for x in ast.walk(n.target):
+                if isinstance(x, ast.Name):
+                    loop_only[x.id] = loop_only.get(x.id, 0) + 1
+    loop_only = {k for k, v in loop_only.items() if counts.get(k) == v}
     self_written = set()
     for n in ast.walk(fn):
         if isinstance(n, ast.Attribute) and isinstance(n.ctx, ast.Store):
@@ -381,6 +390,8 @@ def propagate(fn, max_size=400):
                 if x.id in params:
                     if counts.get(x.id, 0) > 0:
                         return False
+                elif x.id in loop_only:
+                    continue
                 elif counts.get(x.id, 0) > 1:
                     return False
             if isinstance(x, ast.Attribute):
